@@ -38,7 +38,7 @@ func genAttrType(r *Rng) uint64 {
 }
 
 func genTransform(r *Rng, ty int) *SX {
-	id := uint64(r.Intn(65536))
+	id := uint64(r.U16e())
 	if r.Chance(1, 2) {
 		id = uint64(r.Pick([]int{0, 1, 2, 5, 12, 14, 255, 256, 65535}))
 	}
@@ -46,7 +46,7 @@ func genTransform(r *Rng, ty int) *SX {
 	case 0, 1: // no attribute
 		return L(A("tr"), Nn(uint64(ty)), Nn(id), Nn(0), Nn(0), Nn(0), Nn(0), Hx(nil))
 	case 2: // TV
-		v := uint64(r.Intn(65536))
+		v := uint64(r.U16e())
 		if r.Chance(1, 2) {
 			v = uint64(r.Pick([]int{0, 128, 192, 256, 65535}))
 		}
@@ -66,7 +66,7 @@ func genSpi(r *Rng) []byte {
 }
 
 func genProposal(r *Rng) *SX {
-	p := L(A("prop"), Nn(uint64(r.Intn(256))), Nn(uint64(r.Intn(256))), Hx(genSpi(r)))
+	p := L(A("prop"), Nn(uint64(r.U8e())), Nn(uint64(r.U8e())), Hx(genSpi(r)))
 	total := 0
 	names := []string{"encr", "prf", "integ", "dh", "esn"}
 	groups := make([]*SX, 5)
@@ -91,9 +91,9 @@ func genProposal(r *Rng) *SX {
 
 func genSelector(r *Rng) *SX {
 	if r.Bool() {
-		return L(A("sel"), Nn(7), Nn(uint64(r.Intn(256))), Nn(uint64(r.Intn(65536))), Nn(uint64(r.Intn(65536))), Hx(r.Bytes(4)), Hx(r.Bytes(4)))
+		return L(A("sel"), Nn(7), Nn(uint64(r.U8e())), Nn(uint64(r.U16e())), Nn(uint64(r.U16e())), Hx(r.Bytes(4)), Hx(r.Bytes(4)))
 	}
-	return L(A("sel"), Nn(8), Nn(uint64(r.Intn(256))), Nn(uint64(r.Intn(65536))), Nn(uint64(r.Intn(65536))), Hx(r.Bytes(16)), Hx(r.Bytes(16)))
+	return L(A("sel"), Nn(8), Nn(uint64(r.U8e())), Nn(uint64(r.U16e())), Nn(uint64(r.U16e())), Hx(r.Bytes(16)), Hx(r.Bytes(16)))
 }
 
 // settable EAP-AKA' attributes with the value sizes the setter accepts
@@ -120,7 +120,7 @@ var akaSubtypes = []int{1, 2, 4, 5, 12, 13, 14}
 func genAka(r *Rng) *SX {
 	st := uint64(r.Pick(akaSubtypes))
 	if r.Chance(1, 5) {
-		st = uint64(r.Intn(256))
+		st = uint64(r.U8e())
 	}
 	a := L(A("aka"), Nn(st))
 	for _, t := range akaSettable {
@@ -137,7 +137,7 @@ func genAka(r *Rng) *SX {
 }
 
 func genEap(r *Rng) *SX {
-	id := Nn(uint64(r.Intn(256)))
+	id := Nn(uint64(r.U8e()))
 	switch r.Intn(8) {
 	case 0:
 		return L(A("eap"), Nn(3), id, A("none"))
@@ -166,8 +166,8 @@ func genEap(r *Rng) *SX {
 var payloadKinds = []string{"sa", "ke", "idi", "idr", "cert", "certreq", "auth", "nonce", "n", "d", "v", "tsi", "tsr", "cp", "eap"}
 
 func genPayload(r *Rng, kind string) *SX {
-	u8 := func() *SX { return Nn(uint64(r.Intn(256))) }
-	u16 := func() *SX { return Nn(uint64(r.Intn(65536))) }
+	u8 := func() *SX { return Nn(uint64(r.U8e())) }
+	u16 := func() *SX { return Nn(uint64(r.U16e())) }
 	switch kind {
 	case "sa":
 		s := L(A("sa"))
@@ -218,12 +218,12 @@ func genPayload(r *Rng, kind string) *SX {
 }
 
 func genHeader(r *Rng) *SX {
-	ex := uint64(r.Intn(256))
+	ex := uint64(r.U8e())
 	if r.Bool() {
 		ex = uint64(r.Range(34, 37))
 	}
-	return L(Hx(r.Bytes(8)), Hx(r.Bytes(8)), Nn(uint64(r.Intn(16))), Nn(uint64(r.Intn(16))), Nn(ex), Nn(uint64(r.Intn(256))),
-		Nn(r.U64()&0xffffffff), Nn(uint64(r.Intn(256))))
+	return L(Hx(r.Bytes(8)), Hx(r.Bytes(8)), Nn(uint64(r.Intn(16))), Nn(uint64(r.Intn(16))), Nn(ex), Nn(uint64(r.U8e())),
+		Nn(r.U64()&0xffffffff), Nn(uint64(r.U8e())))
 }
 
 // genPayloadList: 0..6 payloads of the encodable domain; occasionally one large payload
